@@ -116,7 +116,13 @@ func (c *sm4CipherAsm) EncryptBlocks(dst, src []byte) {
 	if alias.InexactOverlap(dst[:c.blocksSize], src[:c.blocksSize]) {
 		panic("sm4: invalid buffer overlap")
 	}
-	encryptBlocksAsm(&c.enc[0], dst, src, INST_AES)
+	// the assembly processes two batches at once when src is exactly two batches long:
+	// only when dst has room for them
+	n := c.blocksSize
+	if len(src) == 2*n && len(dst) >= 2*n {
+		n = 2 * n
+	}
+	encryptBlocksAsm(&c.enc[0], dst[:n], src[:n], INST_AES)
 }
 
 func (c *sm4CipherAsm) DecryptBlocks(dst, src []byte) {
@@ -129,7 +135,13 @@ func (c *sm4CipherAsm) DecryptBlocks(dst, src []byte) {
 	if alias.InexactOverlap(dst[:c.blocksSize], src[:c.blocksSize]) {
 		panic("sm4: invalid buffer overlap")
 	}
-	encryptBlocksAsm(&c.dec[0], dst, src, INST_AES)
+	// the assembly processes two batches at once when src is exactly two batches long:
+	// only when dst has room for them
+	n := c.blocksSize
+	if len(src) == 2*n && len(dst) >= 2*n {
+		n = 2 * n
+	}
+	encryptBlocksAsm(&c.dec[0], dst[:n], src[:n], INST_AES)
 }
 
 // expandKey is used by BenchmarkExpand to ensure that the asm implementation
